@@ -11,34 +11,58 @@ type CmdWrapper struct {
 }
 
 func (c *CmdWrapper) Start() error {
+	if f := verifFake(c); f != nil {
+		return f.Start()
+	}
 	return c.cmd.Start()
 }
 
 func (c *CmdWrapper) Run() error {
+	if f := verifFake(c); f != nil {
+		return f.Run()
+	}
 	return c.cmd.Run()
 }
 
 func (c *CmdWrapper) Wait() error {
+	if f := verifFake(c); f != nil {
+		return f.Wait()
+	}
 	return c.cmd.Wait()
 }
 
 func (c *CmdWrapper) ExitCode() int {
+	if f := verifFake(c); f != nil {
+		return f.ExitCode()
+	}
 	return c.cmd.ProcessState.ExitCode()
 }
 
 func (c *CmdWrapper) Pid() int {
+	if f := verifFake(c); f != nil {
+		return f.Pid()
+	}
 	return c.cmd.Process.Pid
 }
 
 func (c *CmdWrapper) StdoutPipe() (io.ReadCloser, error) {
+	if f := verifFake(c); f != nil {
+		return f.StdoutPipe()
+	}
 	return c.cmd.StdoutPipe()
 }
 
 func (c *CmdWrapper) StderrPipe() (io.ReadCloser, error) {
+	if f := verifFake(c); f != nil {
+		return f.StderrPipe()
+	}
 	return c.cmd.StderrPipe()
 }
 
 func (c *CmdWrapper) StdinPipe() (io.WriteCloser, error) {
+	if f := verifFake(c); f != nil {
+		return f.StdinPipe()
+	}
 	return c.cmd.StdinPipe()
 }
 
@@ -57,5 +81,8 @@ func (c *CmdWrapper) SetDir(dir string) {
 }
 
 func (c *CmdWrapper) Output() ([]byte, error) {
+	if f := verifFake(c); f != nil {
+		return f.Output()
+	}
 	return c.cmd.Output()
 }
